@@ -139,6 +139,9 @@ def opaque_markers(v: Any, acc: set, seen: Optional[set] = None, depth: int = 0)
         if len(v) >= 2 and v[0] == "sym" and isinstance(v[1], str) and v[1].startswith("opq:"):
             acc.add("OPQ:" + v[1][4:].split("#")[0][:60])
             return
+        if len(v) == 3 and v[0] == "modvar" and v[2] != "logger":
+            acc.add("MODVAR:" + str(v[2]))   # a module-level value the analyser could not evaluate
+            return
         if len(v) == 3 and v[0] == "extmeth" and isinstance(v[2], str):
             # a field of a modelled pure value (struct_time.tm_hour, ...) is a projection, not an unknown
             x = v[1]
